@@ -11,6 +11,7 @@ import subprocess
 import time
 
 from vlib import core
+from vlib.core import Violation
 from gen import families as F
 from gen import wtypes as W
 from gen.spec import STAGE_BIT
@@ -131,6 +132,8 @@ def gen_cases(family, tier):
             if r.random() < 0.5:
                 opt["val"] = "all"
             c.cfgs = [{"opt": opt}]
+            if getattr(spec, "expect_decline", None):
+                c.cfgs[0]["expect_decline"] = spec.expect_decline
             cases.append(c)
     elif family == "struct":
         nm = SIZES[tier]["c09matrix"]
@@ -147,7 +150,11 @@ def gen_cases(family, tier):
             cf = []
             for mv in ("rust", "glam", "nalgebra"):
                 if not rts:
-                    cf.append({"opt": {"bh": True, "bv": r.random() < 0.5, "mv": mv}})
+                    o = {"bh": True, "bv": r.random() < 0.5, "mv": mv}
+                    if r.random() < 0.4:
+                        # the validator in front must not change what is generated (C05, C17)
+                        o["val"] = "all"
+                    cf.append({"opt": o})
                     cf.append({"opt": {"mv": mv}, "plain": True})
                 cf.append({"opt": {"bh": False, "en": (not f64) or rts, "mv": mv,
                                    "se": r.random() < 0.3, "bv": r.random() < 0.5}})
@@ -1010,6 +1017,30 @@ def decline_guard(camp, prop_cases):
         return ["tool declined %d of %d expected-supported cases, e.g. %s" % (
             len(declined), total, declined[:3])], len(declined)
     return [], len(declined)
+
+
+def refused(c, x):
+    """short reason if the tool refused (typed error or panic) a shader that naga parses and
+    validates and that is not generated to be refused; None otherwise (ok, lost ...)"""
+    g = c.gen.get(x["id"], {})
+    if g.get("result") not in ("err", "panic") or c.frontend_rejected or x.get("expect_decline"):
+        return None
+    if g.get("result") == "err":
+        return str(g.get("err_kind"))
+    return re.sub(r"[^A-Za-z ]", "", (g.get("panic") or "panic").split(" @ ")[0])[:40].strip().replace(" ", "-") \
+        or "panic"
+
+
+def refusal_violation(c, x, what):
+    why = refused(c, x)
+    if not why:
+        return None
+    g = c.gen[x["id"]]
+    return Violation("shader-refused", why,
+                     "generation fails (%s) for a shader naga accepts, so there is no %s: %s" % (
+                         why, what, g.get("display") or g.get("panic") or ""),
+                     {"case_id": c.id, "wgsl": c.wgsl, "options": x["opt"],
+                      "include_path": x.get("include_path")})
 
 
 def stage_names(bits):
